@@ -9,7 +9,7 @@ def run(ctx):
     distinct = len({(c["dataset"], str(c["bits"]), c["i"], str(c["limit"])) for c in cases})
     ctx.coverage.update({
         "evaluations": len(cases), "distinct_nontrivial": distinct,
-        "rule": "(start set, proposed action, limited variable, limit) on the two shipped data sets; the limit is placed off the grid: "
+        "rule": "(start set, proposed action, limited variable, limit) on the two shipped data sets and a row-permuted variant of ValidModel (Subcatchments rows reversed, Actions rows rotated); the limit is placed off the grid: "
                 "midway between current and prospective total, half a grid unit below both, above both, or just below the prospective "
                 "value; all six limitable variables; model vs implementation on verdict, quoted value, reported changes, observables and "
                 "StateIsValid afterwards; implementation-side oracle: verdict == (total + reported change <= limit), quote == that value. "
